@@ -19,7 +19,7 @@ def fam_core(seed, i):
     keep = any(k.startswith("w") for k in kinds.values()) or rng.random() < 0.5
     main, handles = setup_main(rng, cfg, kinds, keep)
     sc["clients"]["main"] = main
-    w = {"send": 8, "call": 8, "ping": 2, "yield": 3, "clone": 1, "drop": 1, "stop": 0.5, "downgrade": 0.5, "upgrade": 0.5,
+    w = {"send": 8, "call": 8, "ping": 5, "yield": 3, "clone": 1, "drop": 1, "stop": 0.5, "downgrade": 0.5, "upgrade": 0.5,
          "sender": 0.5, "caller": 0.5, "weak_sender": 0.3, "weak_caller": 0.3}
     cnt = [0]
     for c in kinds:
